@@ -313,7 +313,8 @@ def run(ctx: Ctx) -> int:
     cases += [gen(rng, force=("led", "setup"), redecl=True) for _ in range(3)]      # a Led bound again, to another pin, at the top of the loop body
     cases += [gen(rng) for _ in range(ctx.n(80, 1000))]
     srcs = [script(s, l) for _, s, l in cases]
-    passes = [rng.choice([0, 1, 3]) for _ in cases]
+    n_pinned = len([1 for k in sorted(LOOP_OK | {"buzzer"}) for pl in (("setup", "loop") if k in LOOP_OK else ("setup",))]) + 3
+    passes = [2 if i < n_pinned else rng.choice([0, 1, 3]) for i in range(len(cases))]      # pinned cases always run the loop
     outs = [cxx.transpile(s) for s in srcs]
     def inputs(devs):   # every echo pin answers the first attempt, so one measure call is one pulseIn
         return "".join(f"p {d.pins[1]} " + " ".join(["1000"] * 64) + "\n" for d in devs if d.kind == "ultra")
